@@ -362,6 +362,7 @@ def desugar_option_combinators(crates, table=None):
                                  'args': [copy.deepcopy(fop), {'k': 'move', 'pl': {'l': t_l, 'p': []}}], 'dest': copy.deepcopy(dest), 't': nxt}
                     f['blocks'].append({'st': nst, 'term': ncall, 'cleanup': False})
                     done.append((comb, f['name']))
+                    f['desugared'] = True
                     continue
                 if comb == 'filter':
                     # the predicate sees a reference to the payload; the Option itself is passed on where it holds
@@ -404,6 +405,7 @@ def desugar_option_combinators(crates, table=None):
                     x_.setdefault('cleanup', False)
                 f['blocks'].extend(extra)
                 done.append((comb, f['name']))
+                f['desugared'] = True
     return done
 
 
@@ -539,6 +541,68 @@ def fold_const_switches(f):
             continue
         tgt = next((tg for v, tg in t['ts'] if int(v) == c), t['o'])
         b['term'] = {'k': 'goto', 't': tgt, 'folded': True, 'line': t.get('line')}
+        n += 1
+    return n
+
+
+def thread_const_bool_gotos(f):
+    """`d = const true/false; goto S` where S is nothing but `switch d` and d is read nowhere else: go straight to the arm
+    that constant selects.  After an Option combinator was rewritten into its match, this keeps the `None => false` arm
+    from meeting the `Some(x) => p(x)` arm in front of the branch on the result (where the rules would only see a merged
+    value)."""
+    blocks = f['blocks']
+    reads = {}
+
+    def walk(x):
+        if isinstance(x, dict):
+            if 'l' in x and isinstance(x.get('p'), list):
+                reads[x['l']] = reads.get(x['l'], 0) + 1
+                for q in x['p']:
+                    if q.get('k') == 'index':
+                        reads[q.get('l')] = reads.get(q.get('l'), 0) + 1
+                return
+            for v in x.values():
+                walk(v)
+        elif isinstance(x, list):
+            for v in x:
+                walk(v)
+    for b in blocks:
+        for st in b['st']:
+            if st['k'] == 'assign':
+                walk(st['rv'])
+                if st['pl']['p']:
+                    walk(st['pl'])
+            else:
+                walk(st)
+        t = b['term']
+        if t['k'] == 'call':
+            walk(t['args'])
+        elif t['k'] == 'switch':
+            walk(t['d'])
+        elif t['k'] == 'drop':
+            walk(t['pl'])
+        elif t['k'] == 'assert':
+            walk(t['c'])
+    n = 0
+    for b in blocks:
+        t = b['term']
+        if t['k'] != 'goto' or not b['st']:
+            continue
+        last = b['st'][-1]
+        if last['k'] != 'assign' or last['pl']['p'] or last['rv']['k'] != 'use' or last['rv']['o']['k'] != 'const' or last['rv']['o'].get('ty') != 'bool':
+            continue
+        d = last['pl']['l']
+        S = blocks[t['t']]
+        ts = S['term']
+        if S['st'] or ts['k'] != 'switch' or ts['d'].get('k') not in ('copy', 'move') or ts['d']['pl']['p'] or ts['d']['pl']['l'] != d or reads.get(d, 0) != 1:
+            continue
+        try:
+            v = int(last['rv']['o'].get('int'))
+        except (TypeError, ValueError):
+            continue
+        tgt = next((tg for val, tg in ts['ts'] if int(val) == v), ts['o'])
+        b['term'] = {'k': 'goto', 't': tgt, 'threaded': True}
+        b['st'].pop()      # (the constant was only ever read by the branch that is now bypassed)
         n += 1
     return n
 
